@@ -245,7 +245,7 @@ A third suite, **B3-c04 .. B3-c19** (ten refactorings), was commissioned after t
 functions the newest rules read (the text -> integer helpers, the token -> member-name code of pointer and patch, the print buffer,
 the hash table's insert / lookup / delete / resize, the string set operation, the deep-copy routines, every function that releases
 a field or a global, the number state of the tokener, the member-name ownership of the tokener). What it found is listed with the
-false alarms of 7.2. `tools/par_regress.py` runs the whole regression - unchanged tree, the 62 refactorings x 20 checks, the 160
+false alarms of 7.2. `tools/par_regress.py` runs the whole regression - unchanged tree, the 66 refactorings x 20 checks, the 160
 seeded changes, the ~260 developer mutants - in parallel scratch worktrees with private analysis caches (about 40 minutes on 16
 cores), never touching /repo or /verif/evidence.
 
@@ -256,6 +256,14 @@ saw unknown values).
 
 A fifth suite, **B5-c05 .. B5-c20** (six refactorings aimed at the code the sixth- and seventh-round rules read), found one more:
 the dangling-field rule did not see that `old = t->table; t->table = fresh; free(old);` overwrites the field *before* the release.
+
+A sixth suite, **B6-c02, B6-c07, B6-c09, B6-c13** (four refactorings aimed at the code the eighth-round rules read: the
+indentation and container serializers, the array wrappers, the equality routine, the patch driver), found one more, in an older
+rule: C12.R5 recognised the range test before an array fetch by the *name* `json_object_array_length` in the compared value; once
+the accessor became a plain field getter (`list->length`), the path summary saw through it and the comparison read
+`idx < obj->c_array->length`, which the rule took for "no comparison with the length" and refuted. The rule now accepts the
+accessor's result or the length field of the fetched array's backing list; the mutant that drops the range test
+(c12-drop-range-check) and the C12 seeds still fire.
 
 What remains after these corrections (and is accepted): a refactoring that removes a function a rule is anchored in by name ends
 as analysis-broken (exit 2) for that one check, never as a violation; exit 2 asks for the anchor table to be re-confirmed by a
